@@ -311,7 +311,12 @@ type ctxSite struct{ fn, path, bind, built string }
 //     loadTracer, buildCache) and the package-level variables.
 func (p *pkg) emitLifetimes(b *strings.Builder) {
 	var sites []ctxSite
-	var stores, calls, rebinds, envWrites, loadedStores, paramWrites []string
+	var stores, calls, rebinds, envWrites, loadedStores, paramWrites, callEdges []string
+	pkgFuncs := map[string]bool{}
+	for _, fd := range p.allFuncs() {
+		pkgFuncs[fd.Name.Name] = true
+	}
+	seenEdge := map[string]bool{}
 	for _, fd := range p.allFuncs() {
 		if fd.Body == nil {
 			continue
@@ -457,6 +462,28 @@ func (p *pkg) emitLifetimes(b *strings.Builder) {
 					}
 				}
 			case *ast.CallExpr:
+				// call graph of the package (callee by base name) with the os stat calls as leaves
+				callee := ""
+				switch f := x.Fun.(type) {
+				case *ast.Ident:
+					if pkgFuncs[f.Name] {
+						callee = f.Name
+					}
+				case *ast.SelectorExpr:
+					if id, ok := f.X.(*ast.Ident); ok && id.Name == "os" &&
+						(f.Sel.Name == "Stat" || f.Sel.Name == "Lstat" || f.Sel.Name == "Readlink") {
+						callee = "os." + f.Sel.Name
+					} else if pkgFuncs[f.Sel.Name] {
+						callee = f.Sel.Name
+					}
+				}
+				if callee != "" {
+					e := fmt.Sprintf("(%s, %s, %s)", coqStr(fname), coqStr(fd.Name.Name), coqStr(callee))
+					if !seenEdge[e] {
+						seenEdge[e] = true
+						callEdges = append(callEdges, e)
+					}
+				}
 				// append(p, ...) / copy(p, ...) / sort.X(p) on a slice parameter can write the caller's array
 				if id, ok := x.Fun.(*ast.Ident); ok && (id.Name == "append" || id.Name == "copy") && len(x.Args) > 0 {
 					if a, ok := x.Args[0].(*ast.Ident); ok && params[a.Name] == "slice" {
@@ -498,6 +525,10 @@ func (p *pkg) emitLifetimes(b *strings.Builder) {
 	// every append / copy / sort whose first argument is a slice parameter:
 	// (function, kind, statement)
 	fmt.Fprintf(b, "Definition param_writes : list (string * string * string) :=\n  %s.\n\n", coqList(paramWrites))
+	// call graph: (caller, caller's base name, callee's base name); os.Stat /
+	// os.Lstat / os.Readlink are leaves; a method call is an edge to every
+	// function of that name
+	fmt.Fprintf(b, "Definition call_edges : list (string * string * string) :=\n  %s.\n\n", coqList(callEdges))
 	for _, s := range []string{"Builder", "env", "buildOpts", "dockerOpts", "buildContext", "loader", "loadTracer", "buildCache"} {
 		fmt.Fprintf(b, "Definition layout_%s : list (string * string * string) :=\n  %s.\n\n",
 			s, coqList(p.structLayout(s)))
